@@ -53,7 +53,12 @@ class Codec:
             post = ('"\n' if self.mode == 'json' else ';' if self.mode == 'bin' else '\n') if lastc else ''
             code = f'{rid:03d}{_B36[j]}'
             fill = self.unit - len(pre) - len(code) - len(post)
-            out.append(pre + code + '.' * fill + post)
+            pad = '.' * fill
+            if self.mode in ('txt', 'binl') and fill:
+                # line-oriented records may hold any character but '\n': every record carries a '\r' (a line boundary for
+                # str.splitlines / universal newlines, not for the log) - odd records right before their '\n'
+                pad = pad[:-1] + '\r' if rid % 2 else '\r' + pad[1:]
+            out.append(pre + code + pad + post)
         return ''.join(out).encode()
 
     def value(self, rid, cells):
@@ -155,6 +160,35 @@ class World:
 
             replace = rename
 
+            # the same crash points when the position is written through file descriptors (os.open / os.write / os.close):
+            # os.write reaches the kernel at once - a process crash before it leaves nothing, after it everything
+            @staticmethod
+            def open(path, flags, *a, **k):
+                if isinstance(path, str) and path.startswith(world.head) and flags & (os.O_WRONLY | os.O_RDWR):
+                    world._fault('open')
+                    fd = os.open(path, flags, *a, **k)
+                    world.head_fds.add(fd)
+                    return fd
+                return os.open(path, flags, *a, **k)
+
+            @staticmethod
+            def write(fd, data):
+                if fd in world.head_fds:
+                    world._fault('write')
+                return os.write(fd, data)
+
+            @staticmethod
+            def close(fd):
+                if fd in world.head_fds:
+                    world.head_fds.discard(fd)
+                    try:
+                        world._fault('close')
+                    except Crash:
+                        os.close(fd)
+                        raise
+                return os.close(fd)
+
+        self.head_fds = set()
         R.time = lambda: world.now
         R.datetime = FakeDT
         R.os = OSProxy()
@@ -467,7 +501,9 @@ class Replayer:
         if o == W:
             return RL(self.w.logs, self.w.mode, file_size=self.file_bytes, total_size=self.total_bytes,
                       utc=self.w.utc)
-        return RL(self.w.logs, self.w.mode, rdonly=True, autorefresh=o in self.autoref, utc=self.w.utc, head=head)
+        # the size thresholds mean nothing to a reader: r1 is given a file_size below every file of the writer, r2 the default
+        kw = {'file_size': 1} if o == 'r1' else {}
+        return RL(self.w.logs, self.w.mode, rdonly=True, autorefresh=o in self.autoref, utc=self.w.utc, head=head, **kw)
 
     # -- one label -----------------------------------------------------------------------------------------------------
     def do(self, lab):
